@@ -1,1 +1,114 @@
-// contract harnesses for trust-runtime/src/control (included by the verification hook)
+// Contract harnesses for crates/trust-runtime/src/control.rs  (C18)
+//
+// The dispatcher arms are extracted from control/handlers/*.rs on every run into control_arms.in
+// (CHUNKS); the minimum role per arm comes from /verif/spec/control_roles.json, written from the
+// property statement: an arm that is not listed read-only there is mutating and must require more
+// than the viewer role.
+
+use super::*;
+use crate::security::AccessRole;
+
+include!("/verif/gen/kani/trust_runtime/control_arms.in");
+
+fn check_chunk(k: usize) {
+    let chunk = CHUNKS[k];
+    let mut i = 0;
+    let mut seen = 0usize;
+    while i < chunk.len() {
+        let (name, read_only, debug_file) = chunk[i];
+        let role = required_role_for_control_request(name, None);
+        if !read_only {
+            assert!(role > AccessRole::Viewer, "every request type that can change state requires more than the viewer role");
+            assert!(!AccessRole::Viewer.allows(role), "a viewer credential is refused for a mutating request");
+        }
+        assert!(AccessRole::Admin.allows(role), "an admin credential is sufficient for every request type");
+        // debug-class set: exactly the arms of the debug and variables dispatchers
+        assert!(is_debug_request(name) == debug_file, "debug-class requests are exactly the debug/variables dispatcher arms");
+        seen += 1;
+        i += 1;
+    }
+    kani::cover!(seen == chunk.len() && seen > 0);
+}
+
+// @unit id=ctl.roles.chunk0 props=C18 tier=quick kind=proof timeout=600 fn=required_role_for_control_request,is_debug_request,AccessRole::allows
+#[kani::proof]
+#[kani::unwind(40)]
+fn ctl_roles_chunk0() { check_chunk(0); }
+// @unit id=ctl.roles.chunk1 props=C18 tier=quick kind=proof timeout=600 fn=required_role_for_control_request,is_debug_request,AccessRole::allows
+#[kani::proof]
+#[kani::unwind(40)]
+fn ctl_roles_chunk1() { check_chunk(1); }
+// @unit id=ctl.roles.chunk2 props=C18 tier=quick kind=proof timeout=600 fn=required_role_for_control_request,is_debug_request,AccessRole::allows
+#[kani::proof]
+#[kani::unwind(40)]
+fn ctl_roles_chunk2() { check_chunk(2); }
+// @unit id=ctl.roles.chunk3 props=C18 tier=quick kind=proof timeout=600 fn=required_role_for_control_request,is_debug_request,AccessRole::allows
+#[kani::proof]
+#[kani::unwind(40)]
+fn ctl_roles_chunk3() { check_chunk(3); }
+// @unit id=ctl.roles.chunk4 props=C18 tier=quick kind=proof timeout=600 fn=required_role_for_control_request,is_debug_request,AccessRole::allows
+#[kani::proof]
+#[kani::unwind(40)]
+fn ctl_roles_chunk4() { check_chunk(4); }
+// @unit id=ctl.roles.chunk5 props=C18 tier=quick kind=proof timeout=600 fn=required_role_for_control_request,is_debug_request,AccessRole::allows
+#[kani::proof]
+#[kani::unwind(40)]
+fn ctl_roles_chunk5() { check_chunk(5); }
+// @unit id=ctl.roles.chunk6 props=C18 tier=quick kind=proof timeout=600 fn=required_role_for_control_request,is_debug_request,AccessRole::allows
+#[kani::proof]
+#[kani::unwind(40)]
+fn ctl_roles_chunk6() { check_chunk(6); }
+// @unit id=ctl.roles.chunk7 props=C18 tier=quick kind=proof timeout=600 fn=required_role_for_control_request,is_debug_request,AccessRole::allows
+#[kani::proof]
+#[kani::unwind(40)]
+fn ctl_roles_chunk7() { check_chunk(7); }
+
+// Role order: Viewer < Operator < Engineer < Admin, `allows` is the order (all 16 pairs, symbolic).
+fn role_from(k: u8) -> AccessRole {
+    match k {
+        0 => AccessRole::Viewer,
+        1 => AccessRole::Operator,
+        2 => AccessRole::Engineer,
+        _ => AccessRole::Admin,
+    }
+}
+
+// @unit id=ctl.role.order props=C18 tier=quick kind=proof fn=AccessRole::allows
+#[kani::proof]
+fn ctl_role_order() {
+    let a: u8 = kani::any();
+    let b: u8 = kani::any();
+    let c: u8 = kani::any();
+    kani::assume(a < 4 && b < 4 && c < 4);
+    let (ra, rb, rc) = (role_from(a), role_from(b), role_from(c));
+    // monotone in the rank: allows(x, y) <=> rank(x) >= rank(y)
+    assert!(ra.allows(rb) == (a >= b), "role order is Viewer < Operator < Engineer < Admin");
+    // reflexive, total, transitive
+    assert!(ra.allows(ra));
+    assert!(ra.allows(rb) || rb.allows(ra));
+    assert!(!(ra.allows(rb) && rb.allows(rc)) || ra.allows(rc));
+    kani::cover!(a == 0 && b == 3);
+    kani::cover!(a == 3 && b == 0);
+}
+
+// config.set: more than viewer whatever the parameters; Admin when a credential/mode key is present.
+// @unit id=ctl.config_set props=C18 tier=quick kind=proof timeout=900 fn=required_role_for_control_request,required_role_for_config_set
+#[kani::proof]
+#[kani::unwind(40)]
+fn ctl_config_set() {
+    let none = required_role_for_control_request("config.set", None);
+    assert!(none > AccessRole::Viewer);
+    let null = serde_json::Value::Null;
+    let r_null = required_role_for_control_request("config.set", Some(&null));
+    assert!(r_null > AccessRole::Viewer);
+    let which: usize = kani::any();
+    kani::assume(which < CREDENTIAL_KEYS.len());
+    let mut m = serde_json::Map::new();
+    m.insert(CREDENTIAL_KEYS[which].to_string(), serde_json::Value::Null);
+    let obj = serde_json::Value::Object(m);
+    let r = required_role_for_control_request("config.set", Some(&obj));
+    assert!(r == AccessRole::Admin, "changing credentials or the control mode requires the admin role");
+    kani::cover!(which == 0);
+    kani::cover!(which == CREDENTIAL_KEYS.len() - 1);
+    std::mem::forget(obj);
+}
